@@ -675,6 +675,52 @@ def check_opt(ck, s, tainted):
     return n
 
 
+def check_lessmeta(ck, s):
+    """xzless hands the file name to less, which builds a shell command from it for the input preprocessor (LESSOPEN) and
+    escapes exactly the characters listed in LESSMETACHARS.  The default list that xzless sets must contain every
+    character with a meaning to the shell, the backslash included; a character missing from it is passed to the shell
+    unescaped, i.e. the file name is executed as shell code."""
+    need = set(" \t\n';*?\"()<>[|&^`#\\$%=~")
+    got = None
+    site = None
+    env = {}
+    for (name, v, c, ctx) in s.assigns:
+        val = ""
+        okv = True
+        for part in v.parts:
+            kind = part[0]
+            if kind == "sq":
+                val += part[1]
+            elif kind in ("lit", "esc"):
+                val += part[1]
+            elif kind == "dq":
+                for q in part[1]:
+                    if q[0] in ("lit", "esc"):
+                        val += q[1]
+                    elif q[0] == "param" and q[1] in env and q[2] is None:
+                        val += env[q[1]]
+                    else:
+                        okv = False
+            else:
+                okv = False
+        if okv:
+            env[name] = val
+        if name == "LESSMETACHARS":
+            got = val if okv else None
+            site = c
+    if site is None:
+        raise AnalysisBroken("xzless: assignment to LESSMETACHARS not found")
+    if got is None:
+        raise AnalysisBroken("xzless: the value assigned to LESSMETACHARS cannot be evaluated")
+    missing = sorted(need - set(got))
+    ck.ob("C20-QUOTE", "xzless:lessmetachars", not missing, s.where(site["line"]),
+          "xzless: the default LESSMETACHARS covers every shell metacharacter (%d characters)" % len(set(got)) if not missing else
+          "xzless: the default LESSMETACHARS lacks %s: less passes these characters of a file name to the shell unescaped when it "
+          "runs the LESSOPEN preprocessor, so a name such as `note;cmd` or `a\\;b` runs a command or shows another file" % (
+              " ".join(repr(ch) for ch in missing)), key="QUOTE:xzless:lessmetachars")
+    return 1
+
+
 def check_status(ck, s, tainted):
     n = 0
     if s.name in ("xzgrep", "xzdiff"):
@@ -1056,8 +1102,29 @@ def run(ck):
         tot["store"] += st
         if name == "xzgrep":
             check_sed(ck, s, tainted)
+        if name == "xzless":
+            tot["exp"] += check_lessmeta(ck, s)
         tot["opt"] += check_opt(ck, s, tainted)
         tot["status"] += check_status(ck, s, tainted)
+    # the scripts run xz with -qQ and take its exit status as "the file could not be read/decoded" (status 2): an
+    # operand that xz cannot even open has to be an ERROR in xz (a warning is turned into status 0 by -Q)
+    from . import common as _common
+    from sa import ex as _ex
+    px = _common.program(ck, ("xz",), files=("/file_io.c",))
+    f = px.fn("io_open_src", "file_io.c", target="xz")
+    ck.saw_function(f)
+    emp = [b for b in f.blocks.values() if b.term and "cond" in b.term and len(b.succs) == 2 and
+           _ex.show(_ex.strip(b.term["cond"])).replace(" ", "") in ("src_name[0]==0", "src_name[0]=='\\0'")]
+    if not emp:
+        raise AnalysisBroken("io_open_src: the test for an empty file name was not found")
+    tb = f.blocks[emp[0].succs[0]]
+    calls = [c.get("fn") for e in tb.elems if e is not None for c in _ex.calls(e, into_refs=False)]
+    oke = "message_error" in calls and "message_warning" not in calls
+    ck.ob("C20-STATUS", "xz:empty-name-is-error", oke, _common.where(f, emp[0].term["cond"]),
+          "xz io_open_src: an empty file name is reported with message_error()" if oke else
+          "xz io_open_src(): an empty file name is reported with %s: under -Q (as the scripts call xz) the exit status stays 0, "
+          "so `xzgrep pat \"\"` returns 1 (or 0) where grep returns 2" % [c for c in calls if c], key="STATUS:xz:empty-name-is-error")
+    tot["status"] += 1
     ck.extra["counts"] = tot
     ck.floor("C20-QUOTE", 20)
     ck.floor("C20-EVAL", 25)
